@@ -23,7 +23,8 @@ Extraction "model.ml"
   Model.Five.is_wheel Model.Five.or_rank_bits Model.Five.and_bits Model.Five.or_bits Model.Five.multiply_primes
   Model.Five.select Model.Five.evaluate_is_flush Model.Five.evaluate_or_rank_bits
   Model.HandRank.hr_from Model.HandRank.hr_default Model.HandRank.is_invalid Model.HandRank.is_a_valid_hand_rank
-  Model.HandRank.determine_name Model.HandRank.determine_class Model.HandRank.hr_cmp Model.HandRank.hr_eqb
+  Model.HandRank.determine_name Model.HandRank.determine_class Model.HandRank.NAME_FLUSH
+  Model.HandRank.NAME_STRAIGHT Model.HandRank.NAME_STRAIGHT_FLUSH Model.HandRank.hr_cmp Model.HandRank.hr_eqb
   Model.HandRank.hr_lt Model.HandRank.hr_le Model.HandRank.hr_gt Model.HandRank.hr_ge
   Model.Binary.from_ckc Model.Binary.from_binary_card Model.Binary.bc_from_hand Model.Binary.fold_in
   Model.Binary.has Model.Binary.number_of_cards Model.Binary.is_single_card Model.Binary.bc_is_valid
